@@ -1,11 +1,12 @@
 (* C10 - Clean rewrites preserve content; sorting is an idempotent permutation. *)
 From Coq Require Import String.
-From Coq Require Import List NArith Bool Lia Permutation.
+From Coq Require Import List NArith Bool Lia Permutation Sorted.
 Local Open Scope string_scope.
 Import ListNotations.
 From Snaps Require Import Base.Bytes Base.Assoc.
 From Snaps Require Import Model.Frame Model.PathModel Model.Mode Model.Api Model.Natural Model.Clean.
-From Snaps Require Import Proofs.FrameP Proofs.CleanP Proofs.CleanEntriesP.
+From Snaps Require Import Base.Dec.
+From Snaps Require Import Proofs.FrameP Proofs.CleanP Proofs.CleanEntriesP Proofs.SortP.
 
 (* whenever Clean rewrites a file (pruning and/or sorting) the new content is the rendering of a
    PERMUTATION of the staying entries: every surviving entry is written exactly once with exactly the
@@ -49,3 +50,90 @@ Theorem C10_prune_idempotent : forall reg skp es,
   filter (fun e => negb (kept reg skp e)) (filter (kept reg skp) es) = [].
 Proof. exact prune_idempotent. Qed.
 Print Assumptions C10_prune_idempotent.
+
+(* ---------- sorting: natural order, independence of the initial order, idempotence ---------- *)
+
+(* "whenever that order is total": [total_on nat_lt ids] - irreflexive, transitive, and exactly one of
+   x < y, y < x for distinct ids; a decidable (boolean) condition, see [total_nat_b_spec] *)
+
+(* with sorting requested, the rewritten file lists the staying entries (each exactly once, with its body) in an
+   order that passes the library's own sortedness test, namely the staying ids of the sorted id list *)
+Theorem C10_sorted_result : forall reg skp update es obs nf,
+  Forall centry_ok es -> NoDup (map fst es) -> total_on nat_lt (map fst es) ->
+  examine_file reg skp update true (render (map to_entry es)) = (obs, Some nf) ->
+  exists out, nf = render (map to_entry out) /\
+              map fst out = filter (stays reg skp update) (sort_nat (map fst es)) /\
+              is_sorted_nat (map fst out) = true /\
+              Permutation out (stay reg skp update es).
+Proof. exact clean_sorted_result. Qed.
+Print Assumptions C10_sorted_result.
+
+(* ... independent of the initial order of the entries in the file *)
+Theorem C10_sorted_order_independent : forall reg skp update es es' obs nf obs' nf',
+  Forall centry_ok es -> NoDup (map fst es) -> total_on nat_lt (map fst es) ->
+  Permutation es es' ->
+  examine_file reg skp update true (render (map to_entry es)) = (obs, Some nf) ->
+  examine_file reg skp update true (render (map to_entry es')) = (obs', Some nf') ->
+  nf = nf'.
+Proof. exact clean_sorted_order_independent. Qed.
+Print Assumptions C10_sorted_order_independent.
+
+(* running Clean again (same mode, pruning and/or sorting) changes nothing: the file is not written a second time *)
+Theorem C10_clean_twice : forall reg skp update sort es obs nf,
+  Forall centry_ok es -> NoDup (map fst es) -> total_on nat_lt (map fst es) ->
+  examine_file reg skp update sort (render (map to_entry es)) = (obs, Some nf) ->
+  examine_file reg skp update sort nf = ((if update then [] else sort_nat obs), None).
+Proof. exact clean_sort_idempotent. Qed.
+Print Assumptions C10_clean_twice.
+
+(* there is exactly one sorted arrangement of a list of distinct ids on which the order is total: whatever correct
+   algorithm slices.SortFunc uses (pdqsort), it returns the list the model's insertion sort returns *)
+Theorem C10_sorted_arrangement_unique : forall l l',
+  total_on nat_lt l -> NoDup l -> Permutation l l' ->
+  is_sorted_nat l = true -> is_sorted_nat l' = true -> l = l'.
+Proof. exact sorted_perm_unique_nat. Qed.
+Theorem C10_sort_sorted : forall l, total_on nat_lt l -> is_sorted_nat (sort_nat l) = true.
+Proof. exact sort_nat_sorted. Qed.
+Print Assumptions C10_sorted_arrangement_unique.
+Print Assumptions C10_sort_sorted.
+
+(* what the natural order IS on the ids of one test: entries `name - k` are ordered by the ORDINAL numerically
+   (1, 2, ..., 9, 10, 11 and not 1, 10, 11, 2), for every test name whose digit runs fit uint64 *)
+Theorem C10_same_test_by_ordinal : forall p j k,
+  good_prefix p -> in_range j -> in_range k ->
+  nat_lt (p ++ dec j)%list (p ++ dec k)%list = Nat.ltb j k.
+Proof. exact nat_lt_same_test. Qed.
+Theorem C10_same_test_sorted_increasing : forall p ks,
+  good_prefix p -> Forall in_range ks -> NoDup ks ->
+  exists ks', Permutation ks ks' /\ StronglySorted lt ks' /\
+              sort_nat (map (fun k => (p ++ dec k)%list) ks) = map (fun k => (p ++ dec k)%list) ks'.
+Proof. exact sort_nat_same_test_increasing. Qed.
+Theorem C10_same_test_total : forall p ks,
+  good_prefix p -> Forall in_range ks -> total_on nat_lt (map (fun k => (p ++ dec k)%list) ks).
+Proof. exact ids_total_on. Qed.
+Print Assumptions C10_same_test_by_ordinal.
+Print Assumptions C10_same_test_sorted_increasing.
+Print Assumptions C10_same_test_total.
+
+(* the totality hypothesis is necessary: the comparator is not transitive (leading zeros) and even has a cycle
+   through a numeral that does not fit uint64 (byte-order fallback): on such ids "the sorted order" is not defined
+   (known finding K11: the real Clean then needs two runs to settle on large files) *)
+Theorem C10_order_not_total_refuted :
+  exists a b c : bytes, nat_lt a b = true /\ nat_lt b c = true /\ nat_lt c a = true.
+Proof. exact nat_lt_cycle. Qed.
+Theorem C10_order_not_transitive_refuted :
+  exists a b c : bytes,
+    nat_lt a b = true /\ nat_lt b c = true /\ nat_lt a c = false /\ nat_lt c a = false /\ a <> c.
+Proof. exact nat_lt_not_total. Qed.
+Print Assumptions C10_order_not_total_refuted.
+Print Assumptions C10_order_not_transitive_refuted.
+
+(* non-vacuity: a concrete unsorted file of two tests with a stale entry meets every hypothesis; first and second run *)
+Example C10_example_first_run :
+  examine_file ex_reg [] true true (render (map to_entry ex_es)) = ([B "TestB - 2"], Some (render (map to_entry ex_sorted))).
+Proof. exact ex_first_run. Qed.
+Example C10_example_second_run :
+  examine_file ex_reg [] true true (render (map to_entry ex_sorted)) = ([], None).
+Proof. exact ex_second_run_by_theorem. Qed.
+Example C10_example_hypotheses : Forall centry_ok ex_es /\ NoDup (map fst ex_es) /\ total_on nat_lt (map fst ex_es).
+Proof. exact (conj ex_es_ok (conj ex_es_nodup ex_es_total)). Qed.
